@@ -249,12 +249,40 @@ CLAIMED = {
         "note": TRUSTED,
         "technique": "static analysis: inter-procedural text-flow (taint) tracing over MIR provenance with source classification, field-coverage, operand provenance of the scale argument, loop / error-consumption rules",
     },
+    "C16": {
+        "text": "Static decision / placement rules over the CSV importer (the finite part of the statement): FieldMap::amount yields "
+                "+credit only when the credit column is non-empty, -debit only when the debit column is non-empty, an error when both "
+                "are empty, and the amount column as is for an asset and negated for a liability account - and nothing else; the "
+                "counter posting is the negated account amount or the transferred amount signed like it; price-of-primary / "
+                "price-of-secondary attach the rate to the commodity it prices and compute amount*rate / amount/rate, extract / compute "
+                "choose the secondary-amount column or the computed value, the booked rate is the row's rate; the collected "
+                "transactions are reversed exactly and unconditionally under new_to_old and never reordered otherwise; a parsed "
+                "balance column is attached unchanged, in the row's commodity, on every path to the push, and both sign branches of "
+                "to_double_entry assert it on the statement account's posting; the CSV reader uses only reviewed options and every "
+                "record is pushed once (tabled skip: empty date).  That a consistent statement imports into a ledger the "
+                "book-keeping accepts and ends at the last balance is numerical and not decided.",
+        "design_ref": "DESIGN.md §10.2 (C16), §6.2",
+        "note": TRUSTED,
+        "technique": "static analysis: decision tables over guards in force (sign, conversion mode), operand provenance with negation parity, dominance / must-pass placement rules, who-may-call over reader options",
+    },
+    "C18": {
+        "text": "Static decision / placement rules over the Camt053 importer (the finite part of the statement): Amount::to_data is "
+                "+value for Credit and -value for Debit; each of its five uses signs an amount with the credit/debit indicator of the "
+                "same statement object; charges are the negated signed amount, zero charges skipped, included / not-included "
+                "dispatched on is_charge_included; an entry without details and every detail of a batched entry is pushed exactly once "
+                "and neither stream is filtered; transactions are dated by value_date.unwrap_or(booking_date) with the booking date "
+                "as effective date; exactly one opening assertion, on a zero-amount transaction pushed inside the statement before "
+                "its entries, and exactly one closing assertion, on res.last_mut() after the entry loop with nothing pushed "
+                "afterwards; entries are walked forwards for old_to_new and through an odd number of rev() for new_to_old.  "
+                "Conservation of the sums and acceptance by the book-keeping are numerical and not decided.",
+        "design_ref": "DESIGN.md §10.2 (C18), §6.3",
+        "note": TRUSTED,
+        "technique": "static analysis: decision table of the sign function, same-object provenance of (amount, indicator) pairs, loop-structure placement of the balance assertions, must-pass push rules",
+    },
 }
 
 _WIP = "check not built yet in this session (design: DESIGN.md §4); not claimed until it is"
 NOT_APPLICABLE = {
-    "C16": "value level: the finite sign / row-order / rate-direction tables are already pinned by the five CSV goldens; what is left (a consistent statement imports into a ledger okane's own book-keeping accepts) is a numerical statement over runtime rows that no static rule in reach decides (DESIGN.md §6.2)",
-    "C18": "value level: conservation is a sum over a runtime list of entries followed by a second run through book-keeping; the only shape-level facts are single-site choices already pinned by the golden (DESIGN.md §6.3)",
 }
 for _p in ["C%02d" % i for i in range(1, 21)]:
     if _p not in CLAIMED and _p not in NOT_APPLICABLE:
